@@ -1,5 +1,5 @@
 (* C13 — statements only.  Each closed by [exact] of a lemma from the proof files. *)
-From Coq Require Import ZArith List Bool Reals.
+From Coq Require Import ZArith List Bool Reals Permutation.
 From TFV Require Import Comb.LS Comb.LS_proofs Comb.LSRank Comb.LSRank_proofs Comb.LSRank_final.
 Import ListNotations.
 Open Scope Z_scope.
@@ -54,6 +54,40 @@ Theorem C13_ls_map_full_rank_l_list_le5 : forall ja2 jb2 jc2 pa pb pc p_break ca
   injective_on (ls_matrix_on ja2 jb2 jc2 cols) (length cols).
 Proof. exact ls_map_full_rank_l_list_le5. Qed.
 Print Assumptions C13_ls_map_full_rank_l_list_le5.
+
+(* the ls_list and l_list options together (tf_pwa/amp/core.py get_ls_list after /repo 47acb11): what is offered
+   is allowed, listed by the user (when a list is given), has a listed l (when l_list is given), and nothing is
+   offered twice - whatever the user wrote (forbidden or repeated entries included) *)
+Theorem C13_user_ls_exact : forall enumerated l_list ls_opt p,
+  In p (user_ls enumerated l_list ls_opt) <->
+  In p enumerated /\
+  (match ls_opt with Some u => In p u | None => True end) /\
+  (match l_list with Some a => In (fst p) a | None => True end).
+Proof. exact user_ls_spec. Qed.
+Print Assumptions C13_user_ls_exact.
+
+Theorem C13_user_ls_nodup : forall ja2 jb2 jc2 pa pb pc p_break ca l_list ls_opt,
+  NoDup (user_ls (ls_list ja2 jb2 jc2 pa pb pc p_break ca) l_list ls_opt).
+Proof. intros. apply user_ls_NoDup. apply C13_ls_nodup. Qed.
+Print Assumptions C13_user_ls_nodup.
+
+(* ... and its columns are, up to the user's order, a filter of the offered ones, on which the map stays injective *)
+Theorem C13_user_ls_full_rank_le5 : forall ja2 jb2 jc2 pa pb pc p_break ca l_list ls_opt,
+  In ja2 [0; 1; 2; 3; 4; 5]%Z -> In jb2 [0; 1; 2; 3; 4; 5]%Z -> In jc2 [0; 1; 2; 3; 4; 5]%Z ->
+  exists cols, Permutation (user_ls (ls_list ja2 jb2 jc2 pa pb pc p_break ca) l_list ls_opt) cols /\
+               injective_on (ls_matrix_on ja2 jb2 jc2 cols) (length cols).
+Proof.
+  intros ja2 jb2 jc2 pa pb pc p_break ca l_list ls_opt Ha Hb Hc.
+  eexists. split.
+  - apply user_ls_perm_filter. apply C13_ls_nodup.
+  - apply ls_map_full_rank_user_filter_le5; assumption.
+Qed.
+Print Assumptions C13_user_ls_full_rank_le5.
+
+(* the behaviour before the repair: forbidden and repeated couplings were offered *)
+Theorem C13_user_ls_old_refuted :
+  exists enumerated u, ~ incl (user_ls_old enumerated None (Some u)) enumerated /\ ~ NoDup (user_ls_old enumerated None (Some [(1,2);(1,2)]%Z)).
+Proof. exact user_ls_old_refuted. Qed.
 
 (* the general lemma behind it (any size): strictly diagonally dominant Gram matrix => injective *)
 Theorem C13_gram_dominant_injective : forall M n, rows_wf M n -> gram_dominant M n -> injective_on M n.
